@@ -862,6 +862,53 @@ func runEngineL(p *Prog, o *obls) {
 					}
 				}
 			}
+			// a map of the cleared type that is filled by a method that also fills a root (an index of what is buffered:
+			// `buffered[seq] = struct{}{}` beside `packets.Push`) describes the same elements and is emptied with them
+			vm := map[*ssa.Function]int{}
+			for i := 0; i < st.NumFields(); i++ {
+				if _, isMap := st.Field(i).Type().Underlying().(*types.Map); !isMap {
+					continue
+				}
+				name := cFieldName(st.Field(i))
+				fkM := cs.typ + "." + name
+				shadow := false
+				for _, m := range p.Funcs {
+					if m.Blocks == nil || m.Signature.Recv() == nil || typeKey(deref(m.Signature.Recv().Type())) != cs.typ || isConstructor(p, m) {
+						continue
+					}
+					fills, touchesRoot := false, false
+					instrsOf(m, func(in ssa.Instruction) {
+						switch x := in.(type) {
+						case *ssa.MapUpdate:
+							if loadsFieldKey(p, x.Map, fkM) {
+								fills = true
+							}
+						case *ssa.Call:
+							sc := x.Call.StaticCallee()
+							if sc == nil || len(x.Call.Args) == 0 || sc.Signature.Recv() == nil {
+								return
+							}
+							for _, r := range roots {
+								if loadsFieldKey(p, x.Call.Args[0], cs.typ+"."+r) && mutatesReceiver(p, sc, 0, vm) {
+									touchesRoot = true
+								}
+							}
+						}
+					})
+					if fills && touchesRoot {
+						shadow = true
+					}
+				}
+				dup := false
+				for _, r := range roots {
+					if r == name {
+						dup = true
+					}
+				}
+				if shadow && !dup {
+					roots = append(roots, name)
+				}
+			}
 			for i := 0; i < st.NumFields(); i++ {
 				pt, ok := st.Field(i).Type().(*types.Pointer)
 				if !ok {
